@@ -134,6 +134,9 @@ def main() -> int:
             if "/models/" in rel and re.search(rf"^(return {re.escape(stem)}$|{re.escape(stem)} = cls\(|{re.escape(stem)}\.additional_properties)", src_line):
                 vd.violation("mypy:model_local_named_after_module_shadows_property", f"{label}: {rel}:{ln}: {msg} | {src_line}", {"doc": j["doc"] if j else None, "cfg": j.get("cfg") if j else None, "mypy": line})
                 continue
+            if "/api/" in rel and re.search(r"\b_(json|data|files|content)_body\b", src_line) and code in ("attr-defined", "arg-type", "assignment", "union-attr", "index", "call-overload", "no-redef"):
+                vd.violation("mypy:multi_body_destination_variable_reused", f"{label}: {rel}:{ln}: {msg} | {src_line}", {"doc": j["doc"] if j else None, "cfg": j.get("cfg") if j else None, "mypy": line})
+                continue
             vd.violation(f"mypy:{code}:{artefact_kind(rel.split('/', 1)[1] if '/' in rel else rel)}", f"{label}: {rel}:{ln}: {msg} | {src_line}", {"doc": j["doc"] if j else None, "cfg": j.get("cfg") if j else None, "mypy": line})
     ev.count("packages_type_checked", len(pkgs))
     ev.count("mypy_errors", n_err)
